@@ -10,6 +10,28 @@
 #include <sys/wait.h>
 
 typedef int64_t K;
+// other pool parameter sets (oracle only; the Coq model is instantiated for the default MemPoolParams<32,16>)
+template<class T> using PA4 = momo::stdish::unsynchronized_pool_allocator<T, Base, momo::MemPoolParams<4, 0>>;     // 4 blocks per buffer, no cache
+template<class T> using PA1 = momo::stdish::unsynchronized_pool_allocator<T, Base, momo::MemPoolParams<1, 2>>;     // 1 block per buffer, cache of 2
+template<class T> using PA127 = momo::stdish::unsynchronized_pool_allocator<T, Base, momo::MemPoolParams<127, 1>>; // largest block count, cache of 1
+
+// ---- the intended classes are really instantiated --------------------------------------------------------------
+static_assert(Pool::blockCount == 32 && Pool::cachedFreeBlockCount == 16, "default pool parameters");
+static_assert(std::is_same<PA<K>::MemPool, Pool>::value, "PA<T> shares exactly this MemPool type for every T");
+static_assert(std::is_same<PA<char>::MemPool, PA<std::pair<const K, K>>::MemPool>::value, "one pool type for all rebinds");
+static_assert(!std::is_base_of<momo::MemManagerDefault, momo::MemManagerStd<Base>>::value, "generic MemManagerStd, not the std::allocator shortcut");
+static_assert(!PA<K>::propagate_on_container_copy_assignment::value && PA<K>::propagate_on_container_move_assignment::value
+	&& PA<K>::propagate_on_container_swap::value, "propagation traits");
+static_assert(!std::allocator_traits<PA<K>>::is_always_equal::value && !std::allocator_traits<Mon<K>>::is_always_equal::value, "stateful allocator");
+static_assert(std::is_same<std::allocator_traits<Mon<K>>::rebind_alloc<char>, Mon<char>>::value, "Mon rebinds to Mon");
+static_assert(std::is_same<std::allocator_traits<Mon<K>>::propagate_on_container_swap, std::true_type>::value, "Mon inherits the traits");
+static_assert(PA4<K>::MemPool::blockCount == 4 && PA4<K>::MemPool::cachedFreeBlockCount == 0 && PA1<K>::MemPool::blockCount == 1
+	&& PA127<K>::MemPool::blockCount == 127, "extra pool parameter sets");
+// node types of different sizes (libstdc++): the pool is created for value_type and re-targeted to these
+static_assert(sizeof(std::_List_node<K>) == 24 && sizeof(std::_Fwd_list_node<K>) == 16 && sizeof(std::_Rb_tree_node<K>) == 40
+	&& sizeof(std::_Rb_tree_node<std::pair<const K, K>>) == 48 && sizeof(std::__detail::_Hash_node<K, false>) == 16
+	&& sizeof(std::__detail::_Hash_node<std::pair<const K, K>, false>) == 24 && sizeof(K) == 8, "node sizes");
+static_assert(std::__is_fast_hash<std::hash<K>>::value, "no cached hash code in the node");
 enum Kind { LIST, FLIST, MAP, SET, MMAP, UMAP, USET };
 
 template<int KIND, template<class> class A> struct Sel;
@@ -79,7 +101,8 @@ template<int KIND> struct Ops
 	}
 };
 
-template<class C> static Pool* pool_of(const C& c) { return c.get_allocator().mMemPool.get(); }
+template<class C> static const void* pool_of(const C& c) { return c.get_allocator().mMemPool.get(); }
+template<class C> static size_t pool_count(const C& c) { return c.get_allocator().mMemPool->GetAllocateCount(); }
 
 template<int KIND, template<class> class A> static std::string run_container(std::istringstream& is, bool pooled)
 {
@@ -89,7 +112,10 @@ template<int KIND, template<class> class A> static std::string run_container(std
 	const int NS = 3;
 	std::unique_ptr<C> s[NS]; std::unique_ptr<T> t[NS];
 	std::string op; int idx = 0; std::string fail;
-	size_t max_nodes = 0, n_ops = 0, n_failed = 0;
+	size_t max_nodes = 0, n_ops = 0, n_failed = 0, x32 = 0;
+	int pid[NS] = { -1, -1, -1 }; int next_pid = 0;          // symbolic pool identity the property demands
+	std::map<std::string, size_t> opc;                        // operations really executed (measured)
+	std::map<const void*, size_t> prev_count;
 	auto failf = [&](const std::string& m) { if (fail.empty()) fail = "FAIL op#" + std::to_string(idx) + " " + op + ": " + m; };
 	while (fail.empty() && (is >> op))
 	{
@@ -97,43 +123,63 @@ template<int KIND, template<class> class A> static std::string run_container(std
 		int a = 0, b = 0; long k = 0, aux = 0;
 		try
 		{
-			if (op == "n") { is >> a; s[a].reset(); t[a].reset(); s[a].reset(O::template make<C>(typename C::allocator_type(Base(BASE_ID)))); t[a].reset(O::template make<T>(typename T::allocator_type())); }
-			else if (op == "x") { is >> a; s[a].reset(); t[a].reset(); }
-			else if (op == "i") { is >> a >> k >> aux; if (s[a]) { O::ins(*s[a], k, aux); O::ins(*t[a], k, aux); } }
+			if (op == "n") { is >> a; s[a].reset(); t[a].reset(); s[a].reset(O::template make<C>(typename C::allocator_type(Base(BASE_ID)))); t[a].reset(O::template make<T>(typename T::allocator_type())); pid[a] = next_pid++; ++opc[op]; }
+			else if (op == "ns") { is >> a >> b; if (s[b] && a != b) {        // a second container built from the SAME allocator object: shares the pool
+				std::unique_ptr<C> p(O::template make<C>(s[b]->get_allocator())); s[a] = std::move(p); t[a].reset(O::template make<T>(typename T::allocator_type())); pid[a] = pid[b]; ++opc[op]; } }
+			else if (op == "cca" || op == "mca") { int c = 0; is >> a >> b >> c; if (s[b] && s[c] && a != b && a != c) {   // allocator-extended copy / move construction
+				std::unique_ptr<C> p; std::unique_ptr<T> q;
+				if (op == "cca") { p.reset(new C(*s[b], s[c]->get_allocator())); q.reset(new T(*t[b])); }
+				else { p.reset(new C(std::move(*s[b]), s[c]->get_allocator())); q.reset(new T(std::move(*t[b]))); s[b]->clear(); t[b]->clear(); }
+				s[a] = std::move(p); t[a] = std::move(q); pid[a] = pid[c]; ++opc[op]; } }
+			else if (op == "fcc") { int kth = 0; is >> a >> b >> kth; if (s[b] && a != b) {      // copy construction with the kth base allocation failing
+				std::unique_ptr<C> p; bool failed = false;
+				kit::W().arm(kth, -1, -1);
+				try { p.reset(new C(*s[b])); } catch (const std::bad_alloc&) { failed = true; }
+				kit::W().disarm();
+				if (failed) ++n_failed; else { s[a] = std::move(p); t[a].reset(new T(*t[b])); pid[a] = next_pid++; }
+				++opc[op]; } }
+			else if (op == "frh") { int kth = 0; is >> a >> k >> kth; if (s[a]) {           // rehash / sort with the kth base allocation failing
+				bool failed = false; kit::W().arm(kth, -1, -1);
+				try { O::rehash(*s[a], size_t(k)); } catch (const std::bad_alloc&) { failed = true; }
+				kit::W().disarm();
+				if (failed) ++n_failed; else O::rehash(*t[a], size_t(k));
+				++opc[op]; } }
+			else if (op == "x") { is >> a; if (s[a]) ++opc[op]; s[a].reset(); t[a].reset(); }
+			else if (op == "i") { is >> a >> k >> aux; if (s[a]) { O::ins(*s[a], k, aux); O::ins(*t[a], k, aux); ++opc[op]; } }
 			else if (op == "fi") { int kth = 0; is >> a >> k >> aux >> kth; if (s[a]) {
 				// insertion during which the kth base allocation throws: the container must be unchanged (twin: no insertion)
 				bool failed = false;
 				kit::W().arm(kth, -1, -1);
 				try { O::ins(*s[a], k, aux); } catch (const std::bad_alloc&) { failed = true; }
 				kit::W().disarm();
-				if (!failed) O::ins(*t[a], k, aux); else ++n_failed; } }
-			else if (op == "e") { is >> a >> k >> aux; if (s[a]) { O::era(*s[a], k, aux); O::era(*t[a], k, aux); } }
+				if (!failed) O::ins(*t[a], k, aux); else ++n_failed; ++opc[op]; } }
+			else if (op == "e") { is >> a >> k >> aux; if (s[a]) { O::era(*s[a], k, aux); O::era(*t[a], k, aux); ++opc[op]; } }
 			else if (op == "f") { is >> a >> k; if (s[a] && O::fnd(*s[a], k) != O::fnd(*t[a], k)) failf("find differs from twin"); }
-			else if (op == "c") { is >> a; if (s[a]) { s[a]->clear(); t[a]->clear(); } }
-			else if (op == "rh") { is >> a >> k; if (s[a]) { O::rehash(*s[a], size_t(k)); O::rehash(*t[a], size_t(k)); } }
+			else if (op == "c") { is >> a; if (s[a]) { s[a]->clear(); t[a]->clear(); ++opc[op]; } }
+			else if (op == "rh") { is >> a >> k; if (s[a]) { O::rehash(*s[a], size_t(k)); O::rehash(*t[a], size_t(k)); ++opc[op]; } }
 			else if (op == "cc") { is >> a >> b; if (s[b] && a != b) {
 				std::unique_ptr<C> p(new C(*s[b])); std::unique_ptr<T> q(new T(*t[b]));
 				if (pooled && pool_of(*p) == pool_of(*s[b])) failf("copy-constructed container shares the pool of the original");
-				s[a] = std::move(p); t[a] = std::move(q); } }
+				s[a] = std::move(p); t[a] = std::move(q); pid[a] = next_pid++; ++opc[op]; } }
 			else if (op == "ca") { is >> a >> b; if (s[a] && s[b]) {
-				Pool* pa0 = pooled ? pool_of(*s[a]) : nullptr;
+				const void* pa0 = pooled ? pool_of(*s[a]) : nullptr; ++opc[op];
 				*s[a] = *s[b]; *t[a] = *t[b];
 				if (pooled && pool_of(*s[a]) != pa0) failf("copy assignment changed the pool (propagate_on_container_copy_assignment is false)"); } }
 			else if (op == "mc") { is >> a >> b; if (s[b] && a != b) {
-				Pool* pb0 = pooled ? pool_of(*s[b]) : nullptr;
+				const void* pb0 = pooled ? pool_of(*s[b]) : nullptr; ++opc[op];
 				std::unique_ptr<C> p(new C(std::move(*s[b]))); std::unique_ptr<T> q(new T(std::move(*t[b])));
 				if (pooled && pool_of(*p) != pb0) failf("move-constructed container does not carry the pool");
 				if (pooled && pool_of(*s[b]) != pb0) failf("moved-from container lost its pool (allocator move construction must leave the source unchanged)");
 				if (pooled && fail.empty() && size_t(s[b]->get_allocator().mMemPool.use_count()) < 3) failf("use_count after container move construction: source and target must both own the pool");
 				s[b]->clear(); t[b]->clear();
-				s[a] = std::move(p); t[a] = std::move(q); } }
+				s[a] = std::move(p); t[a] = std::move(q); pid[a] = pid[b]; } }
 			else if (op == "ma") { is >> a >> b; if (s[a] && s[b] && a != b) {
-				Pool* pb0 = pooled ? pool_of(*s[b]) : nullptr;
+				const void* pb0 = pooled ? pool_of(*s[b]) : nullptr; ++opc[op]; pid[a] = pid[b];
 				*s[a] = std::move(*s[b]); *t[a] = std::move(*t[b]);
 				if (pooled && pool_of(*s[a]) != pb0) failf("move-assigned container does not carry the pool");
 				s[b]->clear(); t[b]->clear(); } }
 			else if (op == "sw") { is >> a >> b; if (s[a] && s[b]) {
-				Pool* pa0 = pooled ? pool_of(*s[a]) : nullptr; Pool* pb0 = pooled ? pool_of(*s[b]) : nullptr;
+				const void* pa0 = pooled ? pool_of(*s[a]) : nullptr; const void* pb0 = pooled ? pool_of(*s[b]) : nullptr; ++opc[op]; std::swap(pid[a], pid[b]);
 				if (a % 2) s[a]->swap(*s[b]); else { using std::swap; swap(*s[a], *s[b]); }
 				t[a]->swap(*t[b]);
 				if (pooled && (pool_of(*s[a]) != pb0 || pool_of(*s[b]) != pa0)) failf("swapped containers do not carry their pools"); } }
@@ -141,26 +187,34 @@ template<int KIND, template<class> class A> static std::string run_container(std
 			// (hashtable.h: __nh._M_ptr = nullptr without _M_alloc.release()), so an allocator object - and with it a
 			// reference to the pool - is leaked by the LIBRARY; "sp" therefore skips hashed containers, "spx" does not.
 			else if (op == "sp" || op == "spx") { is >> a >> b; if (!(O::hashed && op == "sp") && s[a] && s[b] && a != b && s[a]->get_allocator() == s[b]->get_allocator()) {
-				O::splice(*s[a], *s[b]); O::splice(*t[a], *t[b]); } }
+				O::splice(*s[a], *s[b]); O::splice(*t[a], *t[b]); ++opc[op]; } }
 			else { failf("unknown op"); break; }
 		}
 		catch (const std::exception& e) { failf(std::string("exception ") + e.what()); }
 		if (fail.empty() && !G().fatal.empty()) failf(G().fatal);
 		if (!fail.empty()) break;
 		// ---- the oracle, after every operation ----
-		std::map<Pool*, size_t> nodes; size_t alive = 0, total = 0;
+		std::map<const void*, size_t> nodes, counts; size_t alive = 0, total = 0;
 		for (int i = 0; i < NS; ++i)
 		{
 			if (!s[i]) continue;
 			++alive;
 			if (O::contents(*s[i]) != O::contents(*t[i])) failf("contents of slot " + std::to_string(i) + " differ from the std::allocator twin");
-			if (pooled) nodes[pool_of(*s[i])] += O::size(*s[i]);
+			if (pooled) { const void* pp = pool_of(*s[i]); nodes[pp] += O::size(*s[i]); counts[pp] = pool_count(*s[i]); }
 			total += O::size(*s[i]);
 		}
+		if (pooled)
+			for (int i = 0; i < NS; ++i) for (int j = i + 1; j < NS; ++j)
+				if (s[i] && s[j] && (pid[i] == pid[j]) != (pool_of(*s[i]) == pool_of(*s[j])))
+					failf(std::string("slots ") + std::to_string(i) + "," + std::to_string(j) + (pid[i] == pid[j] ? " must share one pool (built from / moved from the same allocator) but do not"
+						: " must have independent pools but share one"));
 		max_nodes = std::max(max_nodes, total);
 		for (auto& kv : nodes)
-			if (kv.first->GetAllocateCount() != kv.second)
-				failf("pool GetAllocateCount " + std::to_string(kv.first->GetAllocateCount()) + " != live nodes " + std::to_string(kv.second));
+		{
+			size_t cnt = counts[kv.first];
+			if (cnt != kv.second) failf("pool GetAllocateCount " + std::to_string(cnt) + " != live nodes " + std::to_string(kv.second));
+			size_t& pc = prev_count[kv.first]; if (cnt / 32 > pc / 32) ++x32; pc = cnt;
+		}
 		if (!kit::W().errors.empty()) failf("base allocator protocol: " + kit::W().errors[0]);
 		if (alive == 0 && kit::W().live_blocks() != 0) failf("no container alive but " + std::to_string(kit::W().live_blocks()) + " base blocks outstanding");
 	}
@@ -173,8 +227,47 @@ template<int KIND, template<class> class A> static std::string run_container(std
 		while (!kit::W().blocks.empty()) { auto it = kit::W().blocks.begin(); kit::raw_deallocate(it->second.mgr, it->first, it->second.size); }  // do not poison later cases
 	}
 	if (!fail.empty()) return fail;
+	std::string oc; for (auto& kv : opc) oc += (oc.empty() ? "" : ",") + kv.first + ":" + std::to_string(kv.second);
 	return "ok ops=" + std::to_string(n_ops) + " maxnodes=" + std::to_string(max_nodes) + " basealloc=" + std::to_string(kit::W().n_alloc)
-		+ " failed=" + std::to_string(n_failed);
+		+ " failed=" + std::to_string(n_failed) + " x32=" + std::to_string(x32) + " opc=" + oc;
+}
+
+// ---- elements with non-trivial, possibly throwing copy construction: allocator construct()/destroy() and the
+// "node allocated, element constructor throws, node given back" path.  list<kit::ElemCpy>.
+// ops: pb k | pf k | fpb k kc (kc-th element copy throws) | pop | e k | c | cp (copy-construct a second list and swap) | fcp kc
+template<template<class> class A> static std::string run_elem(std::istringstream& is)
+{
+	typedef kit::ElemCpy E; typedef std::list<E, A<E>> L; typedef std::list<E> T;
+	std::string fail, op; int idx = 0; size_t n_ops = 0, n_failed = 0, max_nodes = 0;
+	{
+		L l{ A<E>(Base(BASE_ID)) }; T t;
+		auto same = [&]() { if (l.size() != t.size()) return false; auto i = l.begin(); for (auto& x : t) { if (!(x == *i)) return false; ++i; } return true; };
+		while (fail.empty() && (is >> op))
+		{
+			++idx; ++n_ops; long k = 0; int kc = 0;
+			if (op == "pb") { is >> k; l.push_back(E(k)); t.push_back(E(k)); }
+			else if (op == "pf") { is >> k; l.emplace_front(k); t.emplace_front(k); }
+			else if (op == "fpb") { is >> k >> kc; E e(k); bool failed = false; kit::W().arm(-1, kc, -1);
+				try { l.push_back(e); } catch (const kit::InjectedCopy&) { failed = true; } kit::W().disarm();
+				if (failed) ++n_failed; else t.push_back(e); }
+			else if (op == "pop") { if (!l.empty()) { l.pop_front(); t.pop_front(); } }
+			else if (op == "e") { is >> k; if (!l.empty()) { auto i = l.begin(); std::advance(i, size_t(k) % l.size()); l.erase(i); auto j = t.begin(); std::advance(j, size_t(k) % t.size()); t.erase(j); } }
+			else if (op == "c") { l.clear(); t.clear(); }
+			else if (op == "cp") { L l2(l); T t2(t); l.swap(l2); t.swap(t2); }
+			else if (op == "fcp") { is >> kc; bool failed = false; kit::W().arm(-1, kc, -1);
+				try { L l2(l); l.swap(l2); } catch (const kit::InjectedCopy&) { failed = true; } kit::W().disarm(); if (failed) ++n_failed; }
+			else { fail = "FAIL unknown op " + op; break; }
+			if (!same()) fail = "FAIL op#" + std::to_string(idx) + " " + op + ": contents differ from the std::allocator twin";
+			if (pool_count(l) != l.size()) fail = "FAIL op#" + std::to_string(idx) + " " + op + ": pool GetAllocateCount " + std::to_string(pool_count(l)) + " != live nodes " + std::to_string(l.size());
+			if (kit::W().live_objs() != l.size() + t.size()) fail = "FAIL op#" + std::to_string(idx) + " " + op + ": " + std::to_string(kit::W().live_objs()) + " live elements for " + std::to_string(l.size() + t.size()) + " nodes (construct/destroy mismatch)";
+			if (!kit::W().errors.empty()) fail = "FAIL op#" + std::to_string(idx) + " " + op + ": " + kit::W().errors[0];
+			max_nodes = std::max(max_nodes, l.size());
+		}
+	}
+	if (fail.empty() && (kit::W().live_blocks() != 0 || kit::W().live_objs() != 0 || !kit::W().errors.empty()))
+		fail = "FAIL end: " + kit::summary() + " (live blocks, live elements, errors) after destruction";
+	if (!fail.empty()) return fail;
+	return "ok ops=" + std::to_string(n_ops) + " maxnodes=" + std::to_string(max_nodes) + " basealloc=" + std::to_string(kit::W().n_alloc) + " failed=" + std::to_string(n_failed);
 }
 
 // ---- two containers with DIFFERENT node sizes sharing one pool through the converting allocator constructor --------
@@ -187,7 +280,7 @@ template<template<class> class A> static std::string run_duo(std::istringstream&
 	{
 		L l{ A<K>(Base(BASE_ID)) }; std::list<K> lt;
 		S s{ std::less<K>(), A<K>(l.get_allocator()) }; std::set<K> st;
-		Pool* pool = l.get_allocator().mMemPool.get();
+		auto pool = l.get_allocator().mMemPool.get();
 		if (s.get_allocator().mMemPool.get() != pool) fail = "FAIL converting constructor does not share the pool";
 		while (fail.empty() && (is >> op))
 		{
@@ -221,26 +314,36 @@ template<template<class> class A> static std::string run_duo(std::istringstream&
 
 // ---- the re-targeting statement of allocate() (pool_allocator.h:119) on a real MemPool with a NON-EMPTY cache -------
 // case: retarget s1 a1 k s2 a2 ; output (same format as the model driver): cached_before count bs al cached_after consistent
-static std::string run_retarget(std::istringstream& is)
+template<class PP> static std::string run_retarget_cfg(std::istringstream& is)
 {
 	size_t s1, a1, k, s2, a2; is >> s1 >> a1 >> k >> s2 >> a2;
-	typedef momo::MemManagerStd<Base> MM;
+	typedef momo::MemManagerStd<Base> MM; typedef PoolOf<PP> Pool;
 	std::string out;
 	{
-		Pool pool(momo::MemPoolParams<>(s1, a1), MM(Base(BASE_ID)));
+		Pool pool(PP(s1, a1), MM(Base(BASE_ID)));
 		std::vector<void*> bl;
-		for (size_t i = 0; i < k; ++i) bl.push_back(pool.Allocate<void>());
+		for (size_t i = 0; i < k; ++i) bl.push_back(pool.template Allocate<void>());
 		for (void* b : bl) pool.Deallocate(b);
 		out = std::to_string(pool.mCachedCount) + " ";
-		pool = Pool(momo::MemPoolParams<>(s2, a2), MM(Base(BASE_ID)));     // exactly line 119
+		pool = Pool(PP(s2, a2), MM(Base(BASE_ID)));     // exactly line 119
 		bool consistent = (pool.mCachedCount == 0) == (pool.mCacheHead == nullptr) && pool.mFreeBufferHead == nullptr;
 		out += std::to_string(pool.GetAllocateCount()) + " " + std::to_string(pool.GetBlockSize()) + " " + std::to_string(pool.GetBlockAlignment())
 			+ " " + std::to_string(pool.mCachedCount) + " " + (consistent ? "1" : "0");
-		if (consistent) { void* b = pool.Allocate<void>(); pool.Deallocate(b); }
+		if (consistent) { void* b = pool.template Allocate<void>(); pool.Deallocate(b); }
 		else { pool.mCachedCount = 0; pool.mCacheHead = nullptr; }            // keep the destructor from crashing
 	}
 	if (kit::W().live_blocks() != 0 || !kit::W().errors.empty()) out += " LEAK";
 	return out;
+}
+// case: retarget bc cf s1 a1 k s2 a2
+static std::string run_retarget(std::istringstream& is)
+{
+	int bc = 0, cf = 0; is >> bc >> cf;
+	if (bc == 32 && cf == 16) return run_retarget_cfg<momo::MemPoolParams<>>(is);
+	if (bc == 4 && cf == 0) return run_retarget_cfg<momo::MemPoolParams<4, 0>>(is);
+	if (bc == 1 && cf == 2) return run_retarget_cfg<momo::MemPoolParams<1, 2>>(is);
+	if (bc == 127 && cf == 1) return run_retarget_cfg<momo::MemPoolParams<127, 1>>(is);
+	return "FAIL unknown configuration";
 }
 
 // ---- direct allocator-level scripts ------------------------------------------------------------------
@@ -268,53 +371,54 @@ template<> struct TypeOf<6> { typedef Blob<3, 1> type; };
 template<> struct TypeOf<7> { typedef Blob<48, 16> type; };
 static const int NTYPES = 8;
 struct MoveTag {};
-template<int TY> struct HImpl;
-template<class Src> static HBase* make_rebound(const Src& src, int ty);
-template<int TY> struct HImpl : HBase
+template<int TY, class PP> struct HImpl;
+template<class PP, class Src> static HBase* make_rebound(const Src& src, int ty);
+template<int TY, class PP> struct HImpl : HBase
 {
 	typedef typename TypeOf<TY>::type T;
-	Mon<T> a;
+	typedef MonT<T, PP> MonX;
+	MonX a;
 	HImpl() : a(Base(BASE_ID)) {}
 	template<class X> explicit HImpl(const X& x) : a(x) {}
-	HImpl(SoccTag, const Mon<T>& x) : a(x.select_on_container_copy_construction()) {}
-	HImpl(MoveTag, Mon<T>&& x) : a(std::move(x)) {}
+	HImpl(SoccTag, const MonX& x) : a(x.select_on_container_copy_construction()) {}
+	HImpl(MoveTag, MonX&& x) : a(std::move(x)) {}
 	int type() const override { return TY; }
-	HBase* copy() const override { return new HImpl<TY>(a); }
-	HBase* move_from() override { return new HImpl<TY>(MoveTag(), std::move(a)); }
-	HBase* rebind(int ty) const override { return make_rebound(a, ty); }
-	HBase* socc() const override { return new HImpl<TY>(SoccTag(), a); }
-	void assign(const HBase& o) override { a = static_cast<const HImpl<TY>&>(o).a; }
+	HBase* copy() const override { return new HImpl<TY, PP>(a); }
+	HBase* move_from() override { return new HImpl<TY, PP>(MoveTag(), std::move(a)); }
+	HBase* rebind(int ty) const override { return make_rebound<PP>(a, ty); }
+	HBase* socc() const override { return new HImpl<TY, PP>(SoccTag(), a); }
+	void assign(const HBase& o) override { a = static_cast<const HImpl<TY, PP>&>(o).a; }
 	void* alloc(size_t n) override { return a.allocate(n); }
 	void dealloc(void* p, size_t n) override { a.deallocate(static_cast<T*>(p), n); }
 };
-template<class Src> static HBase* make_rebound(const Src& src, int ty)
+template<class PP, class Src> static HBase* make_rebound(const Src& src, int ty)
 {
 	switch (ty)
 	{
-	case 0: return new HImpl<0>(src); case 1: return new HImpl<1>(src); case 2: return new HImpl<2>(src); case 3: return new HImpl<3>(src);
-	case 4: return new HImpl<4>(src); case 5: return new HImpl<5>(src); case 6: return new HImpl<6>(src); default: return new HImpl<7>(src);
+	case 0: return new HImpl<0, PP>(src); case 1: return new HImpl<1, PP>(src); case 2: return new HImpl<2, PP>(src); case 3: return new HImpl<3, PP>(src);
+	case 4: return new HImpl<4, PP>(src); case 5: return new HImpl<5, PP>(src); case 6: return new HImpl<6, PP>(src); default: return new HImpl<7, PP>(src);
 	}
 }
-static HBase* make_new(int ty)
+template<class PP> static HBase* make_new(int ty)
 {
 	switch (ty)
 	{
-	case 0: return new HImpl<0>(); case 1: return new HImpl<1>(); case 2: return new HImpl<2>(); case 3: return new HImpl<3>();
-	case 4: return new HImpl<4>(); case 5: return new HImpl<5>(); case 6: return new HImpl<6>(); default: return new HImpl<7>();
+	case 0: return new HImpl<0, PP>(); case 1: return new HImpl<1, PP>(); case 2: return new HImpl<2, PP>(); case 3: return new HImpl<3, PP>();
+	case 4: return new HImpl<4, PP>(); case 5: return new HImpl<5, PP>(); case 6: return new HImpl<6, PP>(); default: return new HImpl<7, PP>();
 	}
 }
 
 // script: N ty | C h | R h ty | S h | = hd hs | X h | A h n | D h k     (h = index in the script's own handle table,
 // k = index in its block table).  The script is trusted to be executable (prop.py generates protocol-respecting ones;
 // the H-violating refutation scripts are hand-made so that the real allocator's misbehaviour does not crash).
-static std::string run_direct(std::istringstream& is)
+template<class PP> static std::string run_direct(std::istringstream& is)
 {
 	std::vector<std::unique_ptr<HBase>> hs; std::vector<std::pair<void*, size_t>> bl;
 	std::string op; size_t n_ops = 0, n_failed = 0;
 	while (G().fatal.empty() && (is >> op))
 	{
 		++n_ops; size_t a = 0, b = 0; int ty = 0;
-		if (op == "N") { is >> ty; hs.emplace_back(make_new(ty)); }
+		if (op == "N") { is >> ty; hs.emplace_back(make_new<PP>(ty)); }
 		else if (op == "C") { is >> a; hs.emplace_back(hs[a]->copy()); }
 		else if (op == "M") { is >> a; hs.emplace_back(hs[a]->move_from()); }
 		else if (op == "F")
@@ -356,14 +460,31 @@ template<int KIND> static std::string dispatch(std::istringstream& is, const std
 	if (alloc == "mon") return run_container<KIND, Mon>(is, false);   // pool identity / count checks are done in the pa run (fewer events here)
 	return "FAIL unknown allocator " + alloc;
 }
+template<int KIND> static std::string dispatch2(std::istringstream& is, const std::string& alloc)
+{
+	if (alloc == "pa4") return run_container<KIND, PA4>(is, true);
+	if (alloc == "pa1") return run_container<KIND, PA1>(is, true);
+	if (alloc == "pa127") return run_container<KIND, PA127>(is, true);
+	return "FAIL unknown allocator " + alloc;
+}
+template<int KIND> static std::string dispatch3(std::istringstream& is, const std::string& alloc)
+{
+	if (alloc == "mon4") return run_container<KIND, Mon4>(is, false);
+	if (alloc == "mon1") return run_container<KIND, Mon1>(is, false);
+	if (alloc == "mon127") return run_container<KIND, Mon127>(is, false);
+	return "FAIL unknown allocator " + alloc;
+}
 
 static std::string g_alloc;
 static std::string finish_line(std::string res)
 {
 	Tracer& g = G(); g.on = false;
-	if (g_alloc == "mon")
+	if (g_alloc.compare(0, 3, "mon") == 0)
 		res += " hviol=" + std::to_string(g.h_violations) + " pool=" + std::to_string(g.n_pool) + " raw=" + std::to_string(g.n_raw)
-			+ " reparam=" + std::to_string(g.n_reparam) + " events=" + std::to_string(g.n_events) + " | " + g.events + " | " + g.obs;
+			+ " reparam=" + std::to_string(g.n_reparam) + " events=" + std::to_string(g.n_events)
+			+ " cross32=" + std::to_string(g.n_cross32) + " flush=" + std::to_string(g.n_flush) + " fromcache=" + std::to_string(g.n_fromcache)
+			+ " reparamcached=" + std::to_string(g.n_reparam_cached) + " failevents=" + std::to_string(g.n_fail_events) + " moves=" + std::to_string(g.n_moves)
+			+ " maxcount=" + std::to_string(g.max_count) + " | " + g.events + " | " + g.obs;
 	return res;
 }
 static void on_crash(int sig)
@@ -382,21 +503,36 @@ static std::string run_case(const std::string& line)
 	Tracer& g = G(); g.reset();
 	std::string res;
 	if (kind == "retarget") { g_alloc = "none"; return run_retarget(is); }
-	if (kind == "direct") { g.on = true; alloc = "mon"; }
-	else { is >> alloc; g.on = (alloc == "mon"); }
+	if (kind.compare(0, 6, "direct") == 0) { g.on = true; alloc = "mon" + kind.substr(6); }
+	else { is >> alloc; g.on = (alloc.compare(0, 3, "mon") == 0); }
 	g_alloc = alloc;
+	g.cfg = (alloc == "mon4") ? "4 0" : (alloc == "mon1") ? "1 2" : (alloc == "mon127") ? "127 1" : "32 16";
 	if (false) {}
-#if PART != 1
+#if PART == 3 || PART == -1
+	else if (kind == "direct4") res = run_direct<momo::MemPoolParams<4, 0>>(is);
+	else if (kind == "direct1") res = run_direct<momo::MemPoolParams<1, 2>>(is);
+	else if (kind == "direct127") res = run_direct<momo::MemPoolParams<127, 1>>(is);
+	else if (alloc == "mon4" || alloc == "mon1" || alloc == "mon127")
+		res = (kind == "list") ? dispatch3<LIST>(is, alloc) : (kind == "set") ? dispatch3<SET>(is, alloc) : (kind == "umap") ? dispatch3<UMAP>(is, alloc)
+			: (kind == "duo") ? ((alloc == "mon4") ? run_duo<Mon4>(is) : (alloc == "mon1") ? run_duo<Mon1>(is) : run_duo<Mon127>(is)) : "FAIL unknown kind " + kind;
+#endif
+#if PART == 2 || PART == -1
+	else if (kind == "elem") res = (alloc == "pa") ? run_elem<PA>(is) : (alloc == "pa4") ? run_elem<PA4>(is) : run_elem<PA1>(is);
+	else if (alloc == "pa4" || alloc == "pa1" || alloc == "pa127")
+		res = (kind == "list") ? dispatch2<LIST>(is, alloc) : (kind == "set") ? dispatch2<SET>(is, alloc) : (kind == "umap") ? dispatch2<UMAP>(is, alloc)
+			: (kind == "duo") ? ((alloc == "pa4") ? run_duo<PA4>(is) : (alloc == "pa1") ? run_duo<PA1>(is) : run_duo<PA127>(is)) : "FAIL unknown kind " + kind;
+#endif
+#if PART == 0 || PART == -1
 	else if (kind == "list") res = dispatch<LIST>(is, alloc);
 	else if (kind == "flist") res = dispatch<FLIST>(is, alloc);
 	else if (kind == "map") res = dispatch<MAP>(is, alloc);
 	else if (kind == "set") res = dispatch<SET>(is, alloc);
 #endif
-#if PART != 0
+#if PART == 1 || PART == -1
 	else if (kind == "mmap") res = dispatch<MMAP>(is, alloc);
 	else if (kind == "umap") res = dispatch<UMAP>(is, alloc);
 	else if (kind == "uset") res = dispatch<USET>(is, alloc);
-	else if (kind == "direct") res = run_direct(is);
+	else if (kind == "direct") res = run_direct<momo::MemPoolParams<>>(is);
 	else if (kind == "duo") res = (alloc == "mon") ? run_duo<Mon>(is) : run_duo<PA>(is);
 #endif
 	else res = "FAIL unknown kind " + kind;
@@ -413,6 +549,7 @@ int main()
 		pid_t pid = fork();
 		if (pid == 0)
 		{
+			signal(SIGALRM, on_crash); alarm(10);      // a corrupted pool may loop forever: 10 s per case, then reported as CRASH signal=14
 			signal(SIGSEGV, on_crash); signal(SIGABRT, on_crash); signal(SIGBUS, on_crash); signal(SIGFPE, on_crash); signal(SIGILL, on_crash);
 			std::string r = run_case(line) + "\n";
 			ssize_t k = write(1, r.c_str(), r.size()); (void)k;
